@@ -144,6 +144,37 @@ pub unsafe extern "C" fn getenv(name: *const u8) -> *mut u8 {
     std::ptr::null_mut()
 }
 
+static THREADS_SPAWNED_IN_GENERATE: AtomicU64 = AtomicU64::new(0);
+
+extern "C" {
+    fn dlsym(handle: *mut u8, symbol: *const u8) -> *mut u8;
+}
+
+type PthreadStart = extern "C" fn(*mut u8) -> *mut u8;
+type PthreadCreate = unsafe extern "C" fn(*mut usize, *const u8, PthreadStart, *mut u8) -> i32;
+
+/// Thread creation is only OBSERVED (and passed through): the pinned tree spawns no thread inside
+/// `generate`, so there is nothing to schedule; a change that does is reported by a probe, because
+/// the schedule of such threads is not behind a seam.
+#[no_mangle]
+pub unsafe extern "C" fn pthread_create(thread: *mut usize, attr: *const u8, start: PthreadStart, arg: *mut u8) -> i32 {
+    static REAL: std::sync::atomic::AtomicUsize = std::sync::atomic::AtomicUsize::new(0);
+    if TL_IN_GENERATE.try_with(|f| f.get()).unwrap_or(false) {
+        THREADS_SPAWNED_IN_GENERATE.fetch_add(1, Ordering::SeqCst);
+    }
+    let mut real = REAL.load(Ordering::SeqCst);
+    if real == 0 {
+        // RTLD_NEXT = -1: the next definition after this object, i.e. libc's
+        real = dlsym(usize::MAX as *mut u8, b"pthread_create\0".as_ptr()) as usize;
+        if real == 0 {
+            return 11; // EAGAIN: should never happen; spawn() then reports an error
+        }
+        REAL.store(real, Ordering::SeqCst);
+    }
+    let f: PthreadCreate = std::mem::transmute(real);
+    f(thread, attr, start, arg)
+}
+
 /// Real monotonic time, bypassing the interposed symbol. Used only for the
 /// harness's own wall-clock accounting, never for a decision inside a run.
 #[allow(dead_code)]
